@@ -4,7 +4,7 @@ import time
 
 from . import core
 
-ELEMS = {"NTRTM": "vf::NTR_TM", "TC1": "vf::TC1", "TC4": "vf::TC4", "TC8": "vf::TC8", "TC12": "vf::TC12", "TR": "vf::TR", "NTR": "vf::NTR"}
+ELEMS = {"int": "int", "double": "double", "NTRTM": "vf::NTR_TM", "TC1": "vf::TC1", "TC4": "vf::TC4", "TC8": "vf::TC8", "TC12": "vf::TC12", "TR": "vf::TR", "NTR": "vf::NTR"}
 
 
 def alloc_expr(kind, elem):
@@ -103,6 +103,9 @@ QUICK = [
     VCfg("f", 16, "TC12", "none", "uint8_t", "v8"),
     # element whose move operations are not noexcept (the noexcept(false) variants of every helper), partner with a narrower size_type
     VCfg("v", 0, "NTRTM", "basic", "uint32_t", "s8_4"),
+    # raw arithmetic elements (std::is_arithmetic / is_trivial special cases; +0.0 / -0.0 / NaN values)
+    VCfg("s", 4, "double", "amc", "uint32_t", "v"),
+    VCfg("v", 0, "int", "realloc", "uint16_t", "s3"),
     # C++20: operator<=>, erase / erase_if
     VCfg("s", 3, "NTR", "basic", "uint32_t", "v", std="c++20"),
 ]
@@ -383,6 +386,10 @@ FAULT_QUICK = [
     fault_cfg("s", 8, "NTR", "basic", "uint32_t"),
     fault_cfg("f", 8, "NTR", "none", "uint8_t"),
     fault_cfg("f", 8, "TR", "none", "uint8_t"),
+    # amc::allocator with a 64-bit size_type: real malloc/realloc failures (impossible capacities; operator new of std::allocator aborts under ASan instead)
+    fault_cfg("v", 0, "TR", "amc", "uint64_t"),
+    fault_cfg("s", 4, "TC8", "amc", "uint64_t"),
+    fault_cfg("s", 3, "NTR", "amc", "uint64_t"),
 ]
 FAULT_THOROUGH = [
     fault_cfg("v", 0, "NTR", "exact", "int16_t"),
